@@ -3,7 +3,7 @@
 //! (3) by N threads sharing the values by reference with barriers and yields, (4) in a child process under perturbed ambient state
 //! (TZ, TZDIR, LANG, cwd, and the virtual zoneinfo directories made real on disk with other contents). Every op's digest must equal its digest in the plain sequential run.
 use crate::gens::{self, Fields, ZoneCfg};
-use crate::model::MZone;
+use crate::model::{MTrailer, MZone};
 use crate::props::c08::zoneinfo_files;
 use crate::run::*;
 use proptest::prelude::*;
@@ -124,6 +124,33 @@ fn real_files() -> &'static Vec<Vec<u8>> {
     })
 }
 
+fn footer_family_files() -> &'static Vec<Vec<u8>> {
+    static F: OnceLock<Vec<Vec<u8>>> = OnceLock::new();
+    F.get_or_init(|| {
+        let mut v = vec![];
+        for footer in [&b"IST-2IDT,M3.4.4/26,M10.5.0"[..], b"EST5EDT,M3.2.0,M11.1.0", b"<-03>3<-02>,M3.5.0/-2,M10.5.0/-1"] {
+            for version in [3u8, 2, 4] {
+                v.push(crate::tzif::footer_file(version, footer));
+            }
+        }
+        v
+    })
+}
+
+/// Zones sharing the rule's days and times but not the offsets (a memo keyed on too little would serve one zone's instants to the next).
+fn us_family() -> Vec<MZone> {
+    use crate::model::{MDay, MLtt, MRule, MTrailer};
+    (0..4)
+        .map(|k| {
+            let off = -18_000 - 3_600 * k;
+            let std = MLtt::new(off, false, Some(["EST", "CST", "MST", "PST"][k as usize]));
+            let dst = MLtt::new(off + 3_600, true, Some(["EDT", "CDT", "MDT", "PDT"][k as usize]));
+            let rule = MRule { std: std.clone(), dst: dst.clone(), start: MDay::M(3, 2, 0), start_time: 7_200, end: MDay::M(11, 1, 0), end_time: 7_200 };
+            MZone { trans: vec![], types: vec![std, dst], leaps: vec![], trailer: MTrailer::Alt(rule) }
+        })
+        .collect()
+}
+
 fn h(x: impl std::fmt::Debug) -> u64 {
     let mut s = std::collections::hash_map::DefaultHasher::new();
     format!("{x:?}").hash(&mut s);
@@ -145,6 +172,11 @@ fn exec(op: &Op, zones: &[TimeZone], times: &[i64]) -> u64 {
     let z = |i: u8| &zones[i as usize % zones.len()];
     let t = |i: u8| times[i as usize % times.len()];
     match op {
+        Op::ParseFile { f } if *f >= 240 => {
+            // synthetic files whose footers are byte-identical but sit in files of different versions (the footer's meaning depends on it)
+            let files = footer_family_files();
+            h(TimeZone::from_tz_data(&files[(*f as usize - 240) % files.len()]))
+        }
         Op::ParseFile { f } => {
             let files = real_files();
             h(TimeZone::from_tz_data(&files[*f as usize % files.len()]))
@@ -261,6 +293,13 @@ pub fn check_program(p: &Program, st: &mut Stats) -> Result<(), String> {
         }
     }
     let shared = p.ops.iter().filter(|o| matches!(o, Op::Lookup { .. } | Op::Search { .. } | Op::SearchN { .. })).count() >= 2;
+    if p.zones.len() == 4 && p.zones.iter().all(|z| matches!(z.trailer, MTrailer::Alt(_)) && z.trans.is_empty()) {
+        st.class("programs_same_rule_zone_family");
+    }
+    if p.ops.iter().all(|o| matches!(o, Op::ParseFile { f } if *f >= 240)) {
+        st.class("programs_same_footer_other_version");
+        st.nontrivial(p);
+    }
     let mixed = p.ops.iter().any(|o| matches!(o, Op::ParseFile { .. } | Op::Resolve { .. } | Op::ParseLocal { .. })) && shared;
     if shared || mixed {
         st.nontrivial(p);
@@ -381,19 +420,41 @@ pub fn arb_program() -> SBoxedStrategy<Program> {
         1 => any::<u8>().prop_map(|t| Op::Utc { t }),
         1 => any::<u8>().prop_map(|k| Op::Ambient { k }),
     ];
-    (
+    let generic = (
         proptest::collection::vec(prop_oneof![gens::arb_zone(ZoneCfg { max_trans: 8, leaps: true, wide_times: false }), gens::arb_aligned_zone()], 1..4),
         proptest::collection::vec(prop_oneof![3 => -2_000_000_000i64..4_000_000_000, 1 => gens::arb_unix_time()], 1..6),
         proptest::collection::vec(op, 4..40),
         any::<u64>(),
     )
-        .prop_map(|(zones, times, ops, perm_seed)| Program { zones, times, ops, perm_seed })
-        .sboxed()
+        .prop_map(|(zones, times, ops, perm_seed)| Program { zones, times, ops, perm_seed });
+    // same-rule family: four zones with the US rule over four offsets, searched at the local times of one year's gap and fold hours
+    let family_op = prop_oneof![
+        4 => (1u8..5, any::<u8>(), 0u8..2).prop_map(|(z, t, via)| Op::Search { z, t, via }),
+        3 => (1u8..5, any::<u8>(), 0u8..2, any::<u8>()).prop_map(|(z, t, via, n)| Op::SearchN { z, t, via, n }),
+        1 => (1u8..5, any::<u8>()).prop_map(|(z, t)| Op::Lookup { z, t }),
+    ];
+    let family = (proptest::sample::select(vec![2021i64, 2024, 1999]), proptest::collection::vec(family_op, 6..30), any::<u64>()).prop_map(|(y, ops, perm_seed)| {
+        let zones = us_family();
+        let r = match &zones[0].trailer {
+            MTrailer::Alt(r) => r.clone(),
+            _ => unreachable!(),
+        };
+        // instants at which zone k's standard clock shows 02:30 on the day DST starts (inside the gap) and 01:30 on the day it ends (fold)
+        let mut times = vec![];
+        for k in 0..4i64 {
+            times.push(r.s(y) + 1_800 + 3_600 * k);
+            times.push(r.e(y) - 1_800 + 3_600 * k);
+        }
+        Program { zones, times, ops, perm_seed }
+    });
+    // footer family: the same footer bytes inside files of different versions, parsed back to back
+    let footers = (proptest::collection::vec((240u8..=255).prop_map(|f| Op::ParseFile { f }), 4..24), any::<u64>()).prop_map(|(ops, perm_seed)| Program { zones: vec![], times: vec![0], ops, perm_seed });
+    prop_oneof![6 => generic, 1 => family, 1 => footers].sboxed()
 }
 
 pub fn run(ctx: &Ctx) -> Outcome {
     let mut out = Outcome::new(
-        "Generated programs: 4..40 operations (parse a real TZif file, resolve a TZ value through settings over four virtual file systems that give the same names different contents and directory orders, parse_local, lookup, search, buffer search, projection, formatting, UTC conversion, the ambient entry points TimeZone::local / from_posix_tz) over 1..3 generated zones + UTC shared by reference and a pool of <= 5 timestamps reused across zones. \
+        "Generated programs: 4..40 operations (parse a real TZif file, resolve a TZ value through settings over four virtual file systems that give the same names different contents and directory orders, parse_local, lookup, search, buffer search, projection, formatting, UTC conversion, the ambient entry points TimeZone::local / from_posix_tz) over 1..3 generated zones + UTC shared by reference and a pool of <= 5 timestamps reused across zones; one program in eight searches a family of four zones sharing rule days/times but not offsets in one year's gap and fold hours, one in eight parses byte-identical footers inside version 2/3/4 files back to back. \
          Each program runs sequentially (reference), reversed, permuted, on 2/4/8/16 threads (own permutation per thread, barrier start, interleaved yields), and - batched - in a child process with TZ, TZDIR, LANG and the working directory changed. Every operation's digest (hash of the Debug rendering of its complete result) must equal the sequential one. \
          Non-trivial: at least two query operations on shared zones; class: programs mixing parsing and queries. Compile-time half (checks/C15.sh): Send + Sync + 'static + Freeze for every public type (autotraits crate). Auxiliary, non-PBT audit (labelled as such): no writable static / TLS symbol of crate tz in the linked harness, no static mut / thread_local! / env:: token in the crate's non-test sources.",
     );
